@@ -9,6 +9,8 @@ import (
 	"fmt"
 	"io"
 	"strings"
+
+	"github.com/dtn7/cboring"
 )
 
 // SegmentFlags are an one-octet field of single-bit flags for a XFER_SEGMENT.
@@ -103,23 +105,22 @@ func (dtm *DataTransmissionMessage) Unmarshal(r io.Reader) error {
 	}
 
 	// TODO: Transfer Extension Items
-	if transferExtLen > 0 {
-		transferExtBuff := make([]byte, transferExtLen)
-
-		if _, err := io.ReadFull(r, transferExtBuff); err != nil {
-			return err
-		}
+	// Those are skipped without buffering them, as their length is not to be trusted.
+	if err := discardBytes(uint64(transferExtLen), r); err != nil {
+		return err
 	}
 
 	var dataLen uint64
 	if err := binary.Read(r, binary.BigEndian, &dataLen); err != nil {
 		return err
 	} else if dataLen > 0 {
-		dtm.Data = make([]byte, dataLen)
-		if _, err := io.ReadFull(r, dtm.Data); err != nil {
+		// The data length is not to be trusted for an allocation, cboring.ReadRawBytes takes care of this.
+		if data, err := cboring.ReadRawBytes(dataLen, r); err != nil {
 			return err
-		} else if dataLen != uint64(len(dtm.Data)) {
-			return fmt.Errorf("XFER_SEGMENT's data length should be %d, got %d bytes", dataLen, len(dtm.Data))
+		} else if dataLen != uint64(len(data)) {
+			return fmt.Errorf("XFER_SEGMENT's data length should be %d, got %d bytes", dataLen, len(data))
+		} else {
+			dtm.Data = data
 		}
 	}
 
